@@ -453,4 +453,31 @@ def check_C06(pid, tier, seed, verdict):
                  "passwords", "absence of a reply from the real server is judged when it closes the connection or after 1.5 s"]
 
 
-CHECKS = {"C06": check_C06, "C17": check_C17, "C16": check_C16, "C07": check_C07, "C12": check_C12, "C13": check_C13, "C10": check_C10, "C14": check_C14, "C09": check_C09, "C11": check_C11, "C01": check_C01, "C02": check_C02, "C03": check_C03, "C04": check_C04, "C05": check_C05}
+# ------------------------------------------------------------------------------------------- C15
+def check_C15(pid, tier, seed, verdict):
+    thorough = tier == "thorough"
+    mcs = [mc_must_hold(pid, verdict, "Udp.tla", "MC_Udp.cfg", workers=4)]
+    g = V.run_gen(pid, "Udp.tla", "Gen_Udp.cfg")
+    mcs.append(g)
+    scs = V.sample(g["scenarios"], None if thorough else 150, seed)
+    sp = os.path.join(V.workdir(pid), "gen.scn")
+    V.write_scenarios(sp, scs)
+    run = V.run_harness(pid, "udp", seed, tier, sp)
+    res = V.run_trace(pid, "Trace_Udp.tla", "Trace_Udp.cfg", run["trace"])
+    verdict.add_trace_result("udp", res, run)
+    cnt = res["cnt"]
+    V.log(f"[{pid}] trace: {cnt['scn']} scenarios, {cnt['usend']} datagrams sent, {cnt['urecv']} deliveries judged, bad={len(res['bad'])}")
+    cov = _cov(mcs, cnt["scn"], cnt["nontrivial"],
+               "scenario = the real handle_udp_over_tcp on a real server-side stream fed by a scripted peer replaying one "
+               "TLC-enumerated behaviour of Udp.tla (datagram sends interleaved with deliveries of 1-4 cells of the length-prefixed "
+               "stream, i.e. cuts inside the prefix, inside the payload, several datagrams per frame), concretised at sizes "
+               "1/2/3/100/253-258/1472/8190-8194/40000/65505-65507, real loopback UDP target, 1-4 reply datagrams decoded from the "
+               "wire; or an end-to-end round through Client::create_udp_proxy, the real server and a UDP target answering each "
+               "datagram with one of another size; lock-step; non-trivial = scenarios with at least one delivery judged",
+               V.sample_descrs(run["descr"]), True,
+               dict(behaviours_generated=len(g["scenarios"]), behaviours_replayed=len(scs), trace_events=res["lines"], event_counts=cnt))
+    return cov, ["lock-step sending (loopback UDP can drop under load): reordering inside the kernel is not exercised",
+                 "empty datagrams are outside the statement and not sent"]
+
+
+CHECKS = {"C15": check_C15, "C06": check_C06, "C17": check_C17, "C16": check_C16, "C07": check_C07, "C12": check_C12, "C13": check_C13, "C10": check_C10, "C14": check_C14, "C09": check_C09, "C11": check_C11, "C01": check_C01, "C02": check_C02, "C03": check_C03, "C04": check_C04, "C05": check_C05}
